@@ -119,6 +119,12 @@ Clause ==
   ELSE IF ~ENABLED RoundStep(AllFields, TRUE) THEN "Label"
   ELSE "Threshold"
 
+(* the logged round can only be adopted as the next state if it is internally coherent: tallies for exactly the standing candidates *)
+(* (or none, for rules without tallies) and ballots that mention standing candidates only; otherwise the trace ends here            *)
+ResyncPossible == LET e == RoundOf(Ev)  C == UNION Range(e.remaining) IN
+   /\ (DOMAIN e.scores = C \/ (DOMAIN e.scores = {} /\ (C = {} \/ cfg.rule = "DominatingSets")))
+   /\ CandsCast(e.bag) \subseteq C
+   /\ C \subseteq cands
 (* re-synchronise on the logged round so that the rest of the trace is still examined *)
 ResyncBody ==
   /\ Write([tid |-> T.id, kind |-> "reject", l |-> l, clause |-> Clause, status |-> status, rule |-> cfg.rule, flags |-> Flags])
@@ -153,7 +159,7 @@ Advance ==
   /\ ~done
   /\ IF l = Len(T.events) THEN FinishBody
      ELSE IF ENABLED Step THEN Step
-     ELSE IF Ev.ev = "Round" THEN ResyncBody
+     ELSE IF Ev.ev = "Round" /\ ResyncPossible THEN ResyncBody
      ELSE IF Ev.ev \in {"Query", "Snapshot"} /\ status = "finished" THEN QuerySkip
      ELSE FinishBody
 
